@@ -79,7 +79,7 @@ class FragmentsEngine(Engine):
     name = "histsim-fragments"
     tiers = {"quick": 60000, "thorough": 12000000}
     chunks = {"quick": 500, "thorough": 20000}
-    rule = ("each case is a Chooser-generated history of 1..12 insert/append/extend operations on one Fragments "
+    rule = ("each case is a Chooser-generated history of 1..12 insert/append/extend/cursor-assignment operations on one Fragments "
             "object or two interleaved live ones (positions 0..40 biased to the edges of existing fragments, chunks of 0..6 unique bytes, fill "
             "byte drawn), checked step by step against a sparse-array model; distinct = digest of the abstract "
             "operation list; non-trivial = at least two operations and at least one of them interacts with bytes "
@@ -93,7 +93,7 @@ class FragmentsEngine(Engine):
     stub_components = []
     expected_probes = ["insert-before-first", "between-adjacent", "exact-fit-hole", "overlap-pred", "overlap-succ",
                        "overlap-both", "empty-at-occupied", "nonempty-over-earlier-empty", "op-after-failed-op",
-                       "backwards-insert", "extend-partial", "two-live-buffers"]
+                       "backwards-insert", "extend-partial", "two-live-buffers", "cursor-assigned"]
 
     def init_worker(self, tree, wdir):
         import_fresh_bisturi(tree)
@@ -142,12 +142,22 @@ class FragmentsEngine(Engine):
         for step in range(nops):
             bi = ch.draw("buffer", nbuf)
             f, model, uniq, failed_before = bufs[bi]
-            kind = ch.weighted("op", [6, 3, 1])          # insert / append / extend
+            kind = ch.weighted("op", [6, 3, 1, 1])       # insert / append / extend / seek
             before = f.tobytes()
             cur = f.current_offset
             if before != model.render():
                 return self._finish(out, history, interacting, violation, "C11.render",
                                     "buffer %d changed while another buffer was operated on: %r, model says %r" % (bi, before, model.render()))
+            if kind == 3:
+                # the way Move / aligned sequences drive the buffer: the cursor is assigned directly, then appended at
+                p = self._position(ch, model, 1)
+                f.current_offset = p
+                history.append((bi, "seek", p))
+                st["probe:cursor-assigned"] += 1
+                ev("[%d] seek(%d)" % (bi, p))
+                if f.tobytes() != before:
+                    return self._finish(out, history, interacting, violation, "C11.render", "assigning the cursor changed the bytes")
+                continue
             if failed_before:
                 st["probe:op-after-failed-op"] += 1
             if kind == 2:
